@@ -59,6 +59,7 @@ type dnFunc struct {
 	oracles []string
 	resTy   string
 	text    string
+	stTy    string // non-empty: pointer receiver of this struct type; the function runs in OutcomeS stTy (loops_dns_recv.go)
 }
 
 type dnGen struct {
@@ -103,6 +104,7 @@ type dnTr struct {
 	inLoopFn int  // > 0: inside a loop function (recursive calls go through `rec`)
 	nsw      int
 	labelOf  map[ast.Stmt]string
+	stVar    *types.Var // the struct pointer receiver whose state is written through (loops_dns_recv.go)
 }
 
 var dnErrCtors = map[string]bool{"invalidLen": true, "payloadTooBig": true, "parseFrame": true, "parseProtocol": true, "frameLen": true, "invalidConn": true,
@@ -481,6 +483,7 @@ func (t *dnTr) callBind(x *ast.CallExpr, b *lpBinds, allowErr bool) (inouts []st
 	if cf.hasErr && !allowErr {
 		t.refuse(x, "call of %s, which returns an error, outside the `if err != nil { return }` pattern", callee.Name())
 	}
+	t.recvCallCheck(x, cf, recv)
 	var own lpBinds
 	if b == nil {
 		b = &own
@@ -559,6 +562,22 @@ func (t *dnTr) errExpr(e ast.Expr, errVar *types.Var, b *lpBinds) (term string, 
 			return "Err.other", false, false
 		}
 		t.refuse(e, "error value %s", id.Name)
+	}
+	if sel, ok := e.(*ast.SelectorExpr); ok { // pkg.ErrX: a sentinel of another package (builder M)
+		if x, ok := sel.X.(*ast.Ident); ok {
+			if _, isPkg := t.info.Uses[x].(*types.PkgName); isPkg {
+				if v, _ := t.info.Uses[sel.Sel].(*types.Var); v != nil && dnIsError(v.Type()) {
+					name := v.Name()
+					if strings.HasPrefix(name, "Err") && len(name) > 3 {
+						c := strings.ToLower(name[3:4]) + name[4:]
+						if dnErrCtors[c] {
+							return "Err." + c, false, false
+						}
+					}
+					return "Err.other", false, false
+				}
+			}
+		}
 	}
 	if c, ok := e.(*ast.CallExpr); ok {
 		callee, _ := t.calleeOf(c)
@@ -901,6 +920,7 @@ func (t *dnTr) dassign(x *ast.AssignStmt, b *lpBinds) bool {
 				val := t.expr(x.Rhs[0], b)
 				n := lpName(v.Name())
 				b.add(fmt.Sprintf("let %s : %s := { %s with %s := %s }", n, bt, n, lpName(l.Sel.Name), val))
+				t.recvStore(v, b)
 				return true
 			}
 		}
@@ -926,6 +946,7 @@ func (t *dnTr) dassign(x *ast.AssignStmt, b *lpBinds) bool {
 				vn := lpName(v.Name())
 				b.add(fmt.Sprintf("let %s ← mapSet %s.%s %s %s", n, vn, lpName(mx.Sel.Name), k, val))
 				b.add(fmt.Sprintf("let %s : %s := { %s with %s := %s }", vn, bt, vn, lpName(mx.Sel.Name), n))
+				t.recvStore(v, b)
 				return true
 			}
 			t.refuse(x, "map store %s", nodeText(lhs))
@@ -1343,7 +1364,7 @@ func (t *dnTr) dloopFn(node ast.Stmt, cond ast.Expr, body []ast.Stmt, post ast.S
 		sig = append(sig, fmt.Sprintf("(%s : %s)", lpName(v.Name()), t.leanTy(v.Type())))
 		head = append(head, lpName(v.Name()))
 	}
-	text := fmt.Sprintf("def %s %s : Nat%s → Outcome %s\n", name, strings.Join(sig, " "), lpArrow(argTys), resTy) + strings.Join(fl, "\n") + "\n"
+	text := fmt.Sprintf("def %s %s : Nat%s → %s %s\n", name, strings.Join(sig, " "), lpArrow(argTys), t.monadTy(), resTy) + strings.Join(fl, "\n") + "\n"
 	text = strings.ReplaceAll(text, headMark, strings.Join(head, " "))
 	inner := t.loops
 	t.loops = append(append(saved, inner...), text)
@@ -1375,7 +1396,7 @@ func (t *dnTr) recTy() string {
 	for _, ty := range t.dfn.ptys {
 		tys = append(tys, ty)
 	}
-	return strings.Join(append(tys, "Outcome "+t.dfn.resTy), " → ")
+	return strings.Join(append(tys, t.monadTy()+" "+t.dfn.resTy), " → ")
 }
 
 func (t *dnTr) dfor(x *ast.ForStmt, j *dnJump) []string {
@@ -1524,6 +1545,7 @@ func (g *dnGen) translate(f *types.Func) (res *dnFunc, why string) {
 	if r := sig.Recv(); r != nil {
 		t.recv = r
 		fn.params = append(fn.params, r)
+		t.recvInit(r)
 	}
 	for i := 0; i < sig.Params().Len(); i++ {
 		fn.params = append(fn.params, sig.Params().At(i))
@@ -1618,6 +1640,9 @@ func (g *dnGen) translate(f *types.Func) (res *dnFunc, why string) {
 		bodyInd = 4
 	}
 	var body []string
+	if t.stVar != nil {
+		body = append(body, lpInd(bodyInd)+"putRecv "+lpName(t.stVar.Name()))
+	}
 	for _, l := range pre {
 		body = append(body, lpInd(bodyInd)+l)
 	}
@@ -1640,18 +1665,18 @@ func (g *dnGen) translate(f *types.Func) (res *dnFunc, why string) {
 	doc := fmt.Sprintf("/-- Go: func %s (%s:%d)", fn.key, filepath.Base(pos.Filename), pos.Line)
 	if t.selfRec {
 		fmt.Fprintf(&sb, "%s — the recursive body on a fuel argument -/\n", doc)
-		fmt.Fprintf(&sb, "def %s %s : Nat%s → Outcome %s\n", fn.recName, strings.Join(osig, " "), lpArrow(fn.ptys), fn.resTy)
+		fmt.Fprintf(&sb, "def %s %s : Nat%s → %s %s\n", fn.recName, strings.Join(osig, " "), lpArrow(fn.ptys), t.monadTy(), fn.resTy)
 		fmt.Fprintf(&sb, "  | %s => .hang\n", strings.Join(append([]string{"0"}, wild...), ", "))
 		fmt.Fprintf(&sb, "  | %s => do\n", strings.Join(append([]string{"fuel + 1"}, pnames...), ", "))
 		sb.WriteString(strings.Join(body, "\n") + "\n\n")
 		fuel := fmt.Sprintf("((%d : Int) - %s).toNat + 2", levelK, lpName(fn.params[levelIdx].Name()))
 		g.fuels = append(g.fuels, fmt.Sprintf("(%q, %q)", fn.recName, fuel))
 		fmt.Fprintf(&sb, "%s -/\n", doc)
-		fmt.Fprintf(&sb, "def %s %s : Outcome %s :=\n  %s\n", fn.lean, strings.Join(append(osig, psig...), " "), fn.resTy,
+		fmt.Fprintf(&sb, "def %s %s : %s %s :=\n  %s\n", fn.lean, strings.Join(append(osig, psig...), " "), t.monadTy(), fn.resTy,
 			strings.Join(strings.Fields(fmt.Sprintf("%s %s (%s) %s", fn.recName, strings.Join(fn.oracles, " "), fuel, strings.Join(pnames, " "))), " "))
 	} else {
 		fmt.Fprintf(&sb, "%s -/\n", doc)
-		fmt.Fprintf(&sb, "def %s %s : Outcome %s := do\n", fn.lean, strings.Join(append(osig, psig...), " "), fn.resTy)
+		fmt.Fprintf(&sb, "def %s %s : %s %s := do\n", fn.lean, strings.Join(append(osig, psig...), " "), t.monadTy(), fn.resTy)
 		sb.WriteString(strings.Join(body, "\n") + "\n")
 	}
 	fn.text = sb.String()
@@ -1726,8 +1751,11 @@ func (t *dnTr) recMeasure(fd *ast.FuncDecl, f *types.Func, fn *dnFunc) (int, int
 // the functions of layer_dns.go the DNS models describe
 var dnCandidates = []struct{ recv, name string }{
 	{"", "decodeName"}, {"", "DecodeQuestion"}, {"DNSEntry", "DecodeAnswers"}, {"DNSEntry", "decodeRRs"},
-	{"", "encodeName"}, {"", "EncodeDNSQuery"}, {"", "encode"},
+	{"", "encodeName"}, {"", "EncodeDNSQuery"}, {"", "encode"}, {"", "NewDNSEntry"},
 }
+
+var dnNamingCandidates = []struct{ recv, name string }{{"", "encodeNBNSName"}, {"", "decodeNBNSName"}, {"", "parseNodeNameArray"}, {"", "processNBNSNodeStatusResponse"},
+	{"DNSHandler", "ProcessNBNS"}, {"DNSHandler", "ProcessMDNS"}, {"", "processSSDPNotify"}, {"", "processSSDPSearchRequest"}, {"", "processUserAgent"}, {"", "processSSDPResponse"}, {"DNSHandler", "ProcessSSDP"}}
 
 var dnAssumptionText = map[string]string{
 	"intNoOverflow":    "Go int is modelled as an unbounded integer; every int in the translated functions is a length, an offset into the message plus a small constant, or a 16-bit field",
@@ -1737,7 +1765,8 @@ var dnAssumptionText = map[string]string{
 	"nilIsEmpty":       "a nil byte slice and an empty one are the same value []: `x == nil` on a byte slice is `x = []` (true of every slice compared so on the translated paths: net.ParseIP and To4 return nil or 16 / 4 bytes)",
 	"errValuesDropped": "the values returned next to a non-nil error are evaluated and dropped (the callers in the package return at once on err != nil; Outcome.err carries only the error class seen through errors.Is)",
 	"logsDropped":      "fmt.Print* statements and `if Logger.IsDebug() { … }` blocks made only of them have no effect on the results (their arguments are still evaluated)",
-	"ptrInOut":         "a *[]byte parameter and a pointer receiver are passed by value and returned; on an error return their last state is not represented",
+	"ptrInOut":         "a *[]byte parameter is passed by value and returned; on an error return its last state is not represented (the callers drop the buffer on error)",
+	"recvState":        "a pointer receiver of struct type is the state of the OutcomeS monad (Model/LoopGoDns.lean): the body keeps it in a local and writes it through (putRecv) at every field / map store, so the state left behind by an error return or a panic IS represented; maps reachable from the receiver are part of that state (a map held in another variable that aliases a receiver field is not written through - no such store on the translated paths)",
 }
 
 func loopDnsFacts(pkgs []*packages.Package, b *strings.Builder) {
@@ -1765,6 +1794,18 @@ func loopDnsFacts(pkgs []*packages.Package, b *strings.Builder) {
 				continue
 			}
 			f := root.TypesInfo.Defs[fd.Name].(*types.Func)
+			cands = append(cands, cand{f, lpFuncKey(f)})
+		}
+	}
+	// candidates of handlers/dns_naming (builder M): byte-level decoders of the naming handlers
+	if hp := lp.pkgs["github.com/irai/packet/handlers/dns_naming"]; hp != nil {
+		for _, c := range dnNamingCandidates {
+			fd := findFunc(hp, c.recv, c.name)
+			if fd == nil {
+				missing = append(missing, "dns_naming."+c.recv+"."+c.name)
+				continue
+			}
+			f := hp.TypesInfo.Defs[fd.Name].(*types.Func)
 			cands = append(cands, cand{f, lpFuncKey(f)})
 		}
 	}
